@@ -642,3 +642,11 @@ impl SwarmDriver {
         Ok(())
     }
 }
+
+#[cfg(feature = "verif-hooks")]
+impl SwarmDriver {
+    /// Verification hook: feed a (synthetic) kad event to the real handler.
+    pub fn verif_handle_kad_event(&mut self, kad_event: libp2p::kad::Event) -> Result<()> {
+        self.handle_kad_event(kad_event)
+    }
+}
